@@ -4,6 +4,7 @@ import tops
 OVERLAY = {"pkg/pool/byteslice/zz_verif.go": "byteslice/zz_verif.go",
            "pkg/pool/ringbuffer/zz_verif.go": "ringbuffer/zz_verif.go",
            "zz_verif_export.go": "gnet/zz_verif_export.go",
+           "zz_verif_drain.go": "gnet/zz_verif_drain.go",
            "zz_verif_matrix_gc.go": "gnet/zz_verif_matrix_gc.go",
            "zz_verif_matrix_nogc.go": "gnet/zz_verif_matrix_nogc.go"}
 
